@@ -185,9 +185,13 @@ def holdsRun (addr : Nat → Nat) (s : Step) (c : Ctx) : List Msg → List Outco
 def holdsMv (ops : List Nat) (idx : UInt8) (a : Nat) (res : Bool) : Bool :=
   !res || (if ops.length > 255 then isValidMembership ops idx a else controls ops idx a)
 
-/-- `wallet.membersByOperator(leader)[0]` : `MemberIndex(i+1)` of the leader's first seat -/
+/-- `wallet.membersByOperator(leader)[0]` : the leader's seats as `MemberIndex(i+1)` (which wraps above
+    255 seats), sorted ascending by `slices.Sort`; the first element is the smallest *wrapped* index.
+    For at most 255 seats this is the leader's first seat. -/
 def firstSeat (ops : List Nat) (leader : Nat) : Option UInt8 :=
-  (positions ops leader).head?.map (fun p => UInt8.ofNat (p + 1))
+  match (positions ops leader).map (fun p => UInt8.ofNat (p + 1)) with
+  | [] => none
+  | x :: xs => some (xs.foldl (fun a b => if b.toNat < a.toNat then b else a) x)
 
 /-! ## One announcement window / one follower routine over a whole history
 
